@@ -43,7 +43,7 @@ def run(ctx):
     rule_hz(ctx, mod, ci)
     rule_helmholtz(ctx, mod, ci)
     ctx.floor("R-C10-1", 8)
-    ctx.floor("R-C10-2", 6)
+    ctx.floor("R-C10-2", 18)
     ctx.floor("R-C10-3", 8)
     ctx.floor("R-C10-4", 7)
     ctx.floor("R-C10-5", 3)
@@ -132,6 +132,30 @@ def rule_compare(ctx, mod, ci):
         if ok and seen != {"lt", "eq", "gt"}:
             ok, why = False, "the method never distinguishes the orderings %s" % sorted({"lt", "eq", "gt"} - seen)
         ctx.check(ok, R, mname, fi.where(), "Note.%s" % mname, why)
+        # the same table with the real __int__ on structured operands (letter x accidental run x symbolic octave):
+        # a shortcut through octave or name alone is wrong for B#-3 / Cb-4 style spellings
+        for La, Lb in (("B", "C"), ("E", "E")):
+            ra, rb = nd.acc_run("Ra"), nd.acc_run("Rb")
+            oa, ob = Sym("octave_a", 0, INF), Sym("octave_b", 0, INF)
+            a = note_obj(ci, name=AbsStr([La, ra]), octave=Lin.of(oa))
+            b = note_obj(ci, name=AbsStr([Lb, rb]), octave=Lin.of(ob))
+            d_ = (Lin.of(oa) - Lin.of(ob)).scale(12) + (NAT[La] - NAT[Lb]) + nd.run_net(ra) - nd.run_net(rb)
+            try:
+                paths = paths_of(ctx.repo, fi, [a, b], max_paths=4000)
+            except CannotDecide as e:
+                raise AnalysisError("Note.%s on structured notes: %s" % (mname, e))
+            ok, why = bool(paths), "no outcome"
+            for p in paths:
+                lo, hi = p.interp.lin_interval(p.interp.resolve(d_))
+                classes = [c for c, cond in (("lt", lo < 0), ("eq", lo <= 0 <= hi and not p.interp.excludes(d_, 0)), ("gt", hi > 0)) if cond]
+                if p.kind != "return" or not isinstance(p.value, bool):
+                    ok, why = False, "%s %r" % (p.kind, p.value)
+                    break
+                if {c in true_on for c in classes} != {p.value}:
+                    ok, why = False, ("returns %r on a path where int(self) - int(other) = %s ranges over [%s, %s] (orderings %s): "
+                                      "the answer does not follow the pitch numbers" % (p.value, p.interp.resolve(d_), lo, hi, classes))
+                    break
+            ctx.check(ok, R, "%s[%s..,%s..]" % (mname, La, Lb), fi.where(), "Note.%s on %s<acc>-o1 vs %s<acc>-o2" % (mname, La, Lb), why)
         # None never compares equal / smaller
     for mname in ("__lt__", "__eq__"):
         fi = _method(ctx, ci, mname)
